@@ -303,6 +303,9 @@ def cases(draw, name):
 
 def units(tier):
     us = []
+    BOUNDS["uncovered"] = uncovered_names()
+    BOUNDS["public_functions"] = len(public_functions())
+    BOUNDS["registered"] = len(registered_names())
     for name in registered_names():
         ex = (12, 120) if name in SLOW else (40, 600)
         us.append(Unit(name, check, strategy=(lambda nm=name: cases(nm)), examples=ex, shards=(1, 2)))
